@@ -550,6 +550,9 @@ def _wrap(v, ty):
     return ((v - lo) % span) + lo
 
 
+_PRIM_OP_RX = re.compile(r"^<&?(?:'\w+ )?([ui](?:8|16|32|64|128|size)) as std::ops::(Add|Sub|Mul|Div|Rem|BitAnd|BitOr|BitXor|Shl|Shr)<&?(?:'\w+ )?[ui](?:8|16|32|64|128|size)>>::\w+$")
+
+
 def fold(t):
     if not isinstance(t, tuple):
         return t
@@ -618,6 +621,10 @@ def fold(t):
         if isinstance(a, tuple) and a[0] == "call" and a[1].endswith("FromResidual<std::result::Result<std::convert::Infallible, E>>>::from_residual"):
             # a Result built from a residual is always Err: `?` on it (e.g. after inlining a helper) takes the Break arm
             return ("agg", "adt", "std::ops::ControlFlow", "Break", (a,), ("0",))
+    elif k == "call" and len(t[2]) == 2 and _PRIM_OP_RX.match(t[1]):
+        # operator traits on (references to) primitive integers are the MIR binary operations: `*byte & mask` == `byte & mask`
+        m = _PRIM_OP_RX.match(t[1])
+        return fold(("bin", m.group(2), t[2][0], t[2][1], m.group(1)))
     elif k == "call" and len(t[2]) == 1 and re.search(r"core::num::<impl [ui](8|16|32|64|128|size)>::to_(le|be)_bytes$", t[1]):
         a = t[2][0]
         ci = _cint(a)
